@@ -238,7 +238,7 @@ def gen_case(streams, tier):
     fp = [[130, None]]
     for _ in range(2):
         fp.append([g.choice([22, 45, 65, 90, 130, 180, 250, 32.5]),
-                   g.choice([None, 100, 383, 250.5, 1])])
+                   g.choice([None, 100, 383, 250.5, 1, 0, 0.0])])
     return {'prop': ID, 'program': prog,
             'custom': gen_custom_table(g),
             'tables': ['default', 'custom'],
@@ -814,6 +814,8 @@ def check_timing(case, b, g, res, label):
                 gf = call('max_freq', tags, ta.max_freq, tech_in_nm=tech)
             else:
                 period = s * mx + ff
+                if period <= 0:
+                    continue        # a design without logic and no overhead: 1/0 either way
                 gf = call('max_freq', tags, ta.max_freq, tech_in_nm=tech, ffoverhead=ff)
             ef = 1e6 / period
             if not math.isclose(gf, ef, rel_tol=1e-9):
